@@ -245,17 +245,38 @@ abbrev ARow := Nat × Entry × List Nat
 
 def ARow.row (r : ARow) : Nat × String × List Nat := (r.1, r.2.1.name, r.2.2)
 
+/-- the lineage option `_build_index` should end up assigning to the row of entry `e` -/
+def lopt (e : Entry) : Option Lineage := if e.lineage = [] then none else some (sqlLin e.lineage)
+
+/-- a step of `_build_index` that, on the lineage tables, is `sqlAssign` with the right lineage -/
+def GoodStep {α : Type} (step : BuildSt → α → BuildSt) (ar : α → ARow) (it : α) : Prop :=
+  ∀ st : BuildSt, ∃ st0 : BuildSt, st0.idxToLid = st.idxToLid ∧ st0.lineageToLid = st.lineageToLid ∧
+    st0.lidToLineage = st.lidToLineage ∧ st0.nextLid = st.nextLid ∧
+    step st it = sqlAssign st0 (ar it).1 (lopt (ar it).2.1)
+
 theorem sqlIndexStep_arow {db : Db} {log : List Entry} (hq : QRep db log) (hok : SqlOk db log)
-    (st : BuildSt) (r : ARow) (hr : r.2.1 ∈ log) :
-    ∃ st0 : BuildSt, st0.idxToLid = st.idxToLid ∧ st0.lineageToLid = st.lineageToLid ∧
-      st0.lidToLineage = st.lidToLineage ∧ st0.nextLid = st.nextLid ∧
-      sqlIndexStep (taxOf db) st r.row =
-        sqlAssign st0 r.1 (if r.2.1.lineage = [] then none else some (sqlLin r.2.1.lineage)) := by
+    (r : ARow) (hr : r.2.1 ∈ log) :
+    GoodStep (fun st (r : ARow) => sqlIndexStep (taxOf db) st r.row) id r := by
+  intro st
   unfold sqlIndexStep ARow.row
-  simp only [hok.named _ hr, if_false]
+  simp only [hok.named _ hr, if_false, id]
   rw [sqlIdentLineage_entry hq hok hr]
   exact ⟨{ st with identToIdx := set st.identToIdx (sqlIdentLineage (taxOf db) r.2.1.name).1 r.1 },
     rfl, rfl, rfl, rfl, rfl⟩
+
+/-- with recorded identifiers the lineage is found under the identifier itself -/
+theorem sqlIndexStepI_arow {db : Db} {log : List Entry} (hq : QRep db log) (r : ARow) (hr : r.2.1 ∈ log) :
+    GoodStep (fun st (r : ARow) => sqlIndexStepI (taxOf db) st (r.row, r.2.1.ident)) id r := by
+  intro st
+  obtain ⟨i, hi, hie⟩ := List.getElem_of_mem hr
+  have hget : log[i]? = some r.2.1 := by rw [List.getElem?_eq_getElem hi, hie]
+  obtain ⟨h1, _, _⟩ := get?_sqlAssignments hq
+  unfold sqlIndexStepI ARow.row
+  simp only [id]
+  rw [taxLook_taxOf, h1 i _ hget]
+  refine ⟨{ st with identToIdx := set st.identToIdx r.2.1.ident r.1 }, rfl, rfl, rfl, rfl, ?_⟩
+  unfold lopt
+  by_cases hl : r.2.1.lineage = [] <;> simp [hl]
 
 /-- what the tables say about a row -/
 def RowOk (st : BuildSt) (r : ARow) : Prop :=
@@ -274,44 +295,42 @@ theorem RowOk.mono {st st' : BuildSt} {r : ARow} (h : RowOk st r)
     obtain ⟨lid, a, b⟩ := h
     exact ⟨lid, by rw [h1]; exact a, h2 lid lin b⟩
 
-theorem build_fold {db : Db} {log : List Entry} (hq : QRep db log) (hok : SqlOk db log)
-    (R : List ARow) (hR : ∀ r ∈ R, r.2.1 ∈ log) (hnd : (R.map (·.1)).Nodup)
-    (st : BuildSt) (hi : BInv st) (hfresh : ∀ r ∈ R, get? st.idxToLid r.1 = none) :
-    BInv ((R.map ARow.row).foldl (sqlIndexStep (taxOf db)) st) ∧
-      (∀ lid l, get? st.lidToLineage lid = some l →
-        get? ((R.map ARow.row).foldl (sqlIndexStep (taxOf db)) st).lidToLineage lid = some l) ∧
-      (∀ i, (∀ r ∈ R, r.1 ≠ i) →
-        get? ((R.map ARow.row).foldl (sqlIndexStep (taxOf db)) st).idxToLid i = get? st.idxToLid i) ∧
-      (∀ r ∈ R, RowOk ((R.map ARow.row).foldl (sqlIndexStep (taxOf db)) st) r) := by
+theorem build_fold {α : Type} (step : BuildSt → α → BuildSt) (ar : α → ARow) (R : List α)
+    (hstep : ∀ it ∈ R, GoodStep step ar it) (hnd : (R.map (fun it => (ar it).1)).Nodup)
+    (st : BuildSt) (hi : BInv st) (hfresh : ∀ it ∈ R, get? st.idxToLid (ar it).1 = none) :
+    BInv (R.foldl step st) ∧
+      (∀ lid l, get? st.lidToLineage lid = some l → get? (R.foldl step st).lidToLineage lid = some l) ∧
+      (∀ i, (∀ it ∈ R, (ar it).1 ≠ i) → get? (R.foldl step st).idxToLid i = get? st.idxToLid i) ∧
+      (∀ it ∈ R, RowOk (R.foldl step st) (ar it)) := by
   induction R generalizing st with
   | nil => exact ⟨hi, fun _ _ h => h, fun _ _ => rfl, fun r hr => by cases hr⟩
   | cons r rest ih =>
     simp only [List.map_cons, List.nodup_cons] at hnd
-    simp only [List.map_cons, List.foldl_cons]
-    obtain ⟨st0, e1, e2, e3, e4, hstep⟩ := sqlIndexStep_arow hq hok st r (hR r (by simp))
+    simp only [List.foldl_cons]
+    obtain ⟨st0, e1, e2, e3, e4, hs⟩ := hstep r (by simp) st
     have hi0 : BInv st0 := ⟨by rw [e2, e3]; exact hi.to_lid, by rw [e3, e4]; exact hi.lid_lt⟩
-    obtain ⟨a1, a2, a3, a4⟩ := sqlAssign_spec hi0 r.1 (if r.2.1.lineage = [] then none else some (sqlLin r.2.1.lineage))
-    rw [hstep]
-    have hfresh' : ∀ r' ∈ rest, get? (sqlAssign st0 r.1
-        (if r.2.1.lineage = [] then none else some (sqlLin r.2.1.lineage))).idxToLid r'.1 = none := by
+    obtain ⟨a1, a2, a3, a4⟩ := sqlAssign_spec hi0 (ar r).1 (lopt (ar r).2.1)
+    rw [hs]
+    have hfresh' : ∀ r' ∈ rest, get? (sqlAssign st0 (ar r).1 (lopt (ar r).2.1)).idxToLid (ar r').1 = none := by
       intro r' hr'
-      have hne : r'.1 ≠ r.1 := fun e => hnd.1 (List.mem_map.mpr ⟨r', hr', e⟩)
+      have hne : (ar r').1 ≠ (ar r).1 := fun e => hnd.1 (List.mem_map.mpr ⟨r', hr', e⟩)
       rw [a3 _ hne, e1]
       exact hfresh r' (List.mem_cons_of_mem _ hr')
-    have key : RowOk (sqlAssign st0 r.1 (if r.2.1.lineage = [] then none else some (sqlLin r.2.1.lineage))) r := by
+    have key : RowOk (sqlAssign st0 (ar r).1 (lopt (ar r).2.1)) (ar r) := by
       unfold RowOk sqlLineageOf sqlKeep
-      by_cases hl : r.2.1.lineage = []
+      unfold lopt at a4 ⊢
+      by_cases hl : (ar r).2.1.lineage = []
       · simp only [hl, if_true] at a4 ⊢
         rw [a4, e1]; exact hfresh r (by simp)
       · simp only [hl, if_false] at a4 ⊢
-        cases hs : sqlLin r.2.1.lineage with
+        cases hsl : sqlLin (ar r).2.1.lineage with
         | nil =>
-          simp only [hs, if_true] at a4 ⊢
+          simp only [hsl, if_true] at a4 ⊢
           rw [a4, e1]; exact hfresh r (by simp)
         | cons k ks =>
-          simp only [hs, List.cons_ne_nil, if_false, reduceCtorEq] at a4 ⊢
+          simp only [hsl, List.cons_ne_nil, if_false, reduceCtorEq] at a4 ⊢
           exact a4
-    obtain ⟨b1, b2, b3, b4⟩ := ih (fun r' hr' => hR r' (List.mem_cons_of_mem _ hr')) hnd.2 _ a1 hfresh'
+    obtain ⟨b1, b2, b3, b4⟩ := ih (fun r' hr' => hstep r' (List.mem_cons_of_mem _ hr')) hnd.2 _ a1 hfresh'
     refine ⟨b1, ?_, ?_, ?_⟩
     · intro lid l h
       exact b2 lid l (a2 lid l (by rw [e3]; exact h))
@@ -321,8 +340,9 @@ theorem build_fold {db : Db} {log : List Entry} (hq : QRep db log) (hok : SqlOk 
       simp only [List.mem_cons] at hr'
       rcases hr' with hr' | hr'
       · subst hr'
-        have hnot : ∀ r'' ∈ rest, r''.1 ≠ r'.1 := fun r'' h'' e => hnd.1 (List.mem_map.mpr ⟨r'', h'', e⟩)
-        exact key.mono (b3 r'.1 hnot) b2
+        have hnot : ∀ r'' ∈ rest, (ar r'').1 ≠ (ar r').1 :=
+          fun r'' h'' e => hnd.1 (List.mem_map.mpr ⟨r'', h'', e⟩)
+        exact key.mono (b3 _ hnot) b2
       · exact b4 r' hr'
 
 /-! ### the rows of the SQLite form -/
@@ -415,9 +435,9 @@ theorem foldlM_sqlLaStep (s : SqlDb) (st : BuildSt) (h1 : s.idxToLid = st.idxToL
     simp only [List.filterMap_cons, List.append_assoc]
     cases sqlLineageOf r.2.1 <;> simp
 
-theorem sql_idxsOf_arows (s : SqlDb) (R : List ARow) (hrows : s.rows = R.map ARow.row) (x : Nat) :
-    s.idxsOf x = (R.filter (fun r => r.2.2.contains x)).map (·.1) := by
-  unfold SqlDb.idxsOf
+theorem sql_idxsOfAll_arows (s : SqlDb) (R : List ARow) (hrows : s.rows = R.map ARow.row) (x : Nat) :
+    s.idxsOfAll x = (R.filter (fun r => r.2.2.contains x)).map (·.1) := by
+  unfold SqlDb.idxsOfAll
   rw [hrows]
   clear hrows
   induction R with
@@ -428,16 +448,54 @@ theorem sql_idxsOf_arows (s : SqlDb) (R : List ARow) (hrows : s.rows = R.map ARo
     · simp only [h, if_true, List.map_cons]; rw [ih]
     · simp only [h, Bool.false_eq_true, if_false]; rw [ih]
 
+/-- when every stored hash is within the threshold of `self.scaled`, honouring `downsample_scaled` or not
+    makes no difference -/
+theorem idxsOf_eq_all (s : SqlDb) (hb : ∀ r ∈ s.rows, ∀ h ∈ r.2.2, h ≤ mhR s.scaled) (x : Nat) :
+    s.idxsOf x = s.idxsOfAll x := by
+  unfold SqlDb.idxsOf SqlDb.idxsOfWith SqlDb.visibleWith
+  by_cases hv : (!Gen.sqlDownHonoured || decide (x ≤ mhR s.scaled)) = true
+  · simp [hv]
+  · simp only [hv, Bool.false_eq_true, if_false]
+    have hx : ¬ x ≤ mhR s.scaled := by
+      intro hle; apply hv; simp [hle]
+    symm
+    unfold SqlDb.idxsOfAll
+    rw [List.filterMap_eq_nil_iff]
+    intro r hr
+    have : r.2.2.contains x = false := by
+      cases hc : r.2.2.contains x with
+      | false => rfl
+      | true => exact absurd (hb r hr x (by simpa using hc)) hx
+    simpa using this
+
+theorem arows_bounded {db : Db} {log : List Entry} (hq : QRep db log) :
+    ∀ r ∈ arows db log, ∀ h ∈ r.2.2, h ≤ mhR db.scaled := by
+  intro r hr h hh
+  obtain ⟨h1, _, h3, _⟩ := sketches_log hq
+  obtain ⟨q, hq', rfl⟩ := List.mem_map.mp hr
+  have hq2 : q.2 ∈ db.sketches := by
+    have := List.mem_map_of_mem (f := Prod.snd) hq'
+    rwa [map_snd_numberFrom] at this
+  have hg : get? db.sketches q.2.1 = some q.2.2 := get?_of_mem_nodup h1 (by simpa using hq2)
+  obtain ⟨_, _, _, hle⟩ := (h3 q.2.1 h).mp (by rw [hg]; exact hh)
+  exact hle
+
 /-! ### the equivalence -/
 
-def initSt : BuildSt := { identToIdx := [], nextLid := 0, idxToLid := [], lineageToLid := [], lidToLineage := [] }
+/-- what `toSql` produces, whichever way `_build_index` finds the lineages: the rows, and lineage tables that
+    are right for every row -/
+structure SqlBuilt (db : Db) (log : List Entry) (s : SqlDb) : Prop where
+  rows : s.rows = (arows db log).map ARow.row
+  scaled : s.scaled = db.scaled
+  stored : s.storedScaled = db.scaled
+  tables : ∃ st : BuildSt, s.idxToLid = st.idxToLid ∧ s.lidToLineage = st.lidToLineage ∧
+    ∀ r ∈ arows db log, RowOk st r
 
-theorem toSql_unfold {db : Db} {log : List Entry} (hq : QRep db log) {s : SqlDb} (h : db.toSql = .ok s) :
-    s.rows = (arows db log).map ARow.row ∧
-      s.idxToLid = (((arows db log).map ARow.row).foldl (sqlIndexStep (taxOf db)) initSt).idxToLid ∧
-      s.lidToLineage = (((arows db log).map ARow.row).foldl (sqlIndexStep (taxOf db)) initSt).lidToLineage ∧
-      s.scaled = db.scaled ∧ s.storedScaled = db.scaled := by
-  unfold Db.toSql at h
+/-- rows and scaled values of `toSql` do not depend on how `_build_index` works -/
+theorem toSqlWith_rows {db : Db} {log : List Entry} (hq : QRep db log) {stored : Bool} {s : SqlDb}
+    (h : db.toSqlWith stored = .ok s) :
+    s.rows = (arows db log).map ARow.row ∧ s.scaled = db.scaled ∧ s.storedScaled = db.scaled := by
+  unfold Db.toSqlWith at h
   rw [signatures_named_log hq] at h
   simp only at h
   split at h
@@ -446,9 +504,77 @@ theorem toSql_unfold {db : Db} {log : List Entry} (hq : QRep db log) {s : SqlDb}
     · cases h
     · simp only [Except.ok.injEq] at h
       subst h
+      exact ⟨rows_eq_arows hq, rfl, rfl⟩
+
+theorem binv_init : BInv initSt :=
+  ⟨by intro _ _ hh; simp [initSt] at hh, by intro _ hh; simp [initSt, keys] at hh⟩
+
+/-- identifiers guessed from names (the code before the identifier table): needs `SqlOk` -/
+theorem toSql_built_names {db : Db} {log : List Entry} (hq : QRep db log) (hok : SqlOk db log) {s : SqlDb}
+    (h : db.toSqlWith false = .ok s) : SqlBuilt db log s := by
+  unfold Db.toSqlWith at h
+  rw [signatures_named_log hq] at h
+  simp only at h
+  split at h
+  · cases h
+  · split at h
+    · cases h
+    · simp only [Bool.false_eq_true, if_false, Except.ok.injEq] at h
+      subst h
+      refine ⟨rows_eq_arows hq, rfl, rfl, ?_⟩
       simp only
       rw [rows_eq_arows hq]
-      exact ⟨rfl, rfl, rfl, trivial, trivial⟩
+      unfold sqlBuildIndex
+      rw [List.foldl_map]
+      obtain ⟨_, _, _, hall⟩ := build_fold (fun st (r : ARow) => sqlIndexStep (taxOf db) st r.row) id
+        (arows db log) (fun r hr => sqlIndexStep_arow hq hok r (arows_mem_log hq r hr))
+        (arows_ids_nodup db log) initSt binv_init (by intro r _; simp [initSt])
+      exact ⟨_, rfl, rfl, hall⟩
+
+theorem zip_map_map {α β γ : Type} (f : α → β) (g : α → γ) (l : List α) :
+    (l.map f).zip (l.map g) = l.map (fun x => (f x, g x)) := by
+  induction l with
+  | nil => rfl
+  | cons x xs ih => simp [ih]
+
+/-- identifiers recorded in the file: no hypothesis on names or identifiers -/
+theorem toSql_built_idents {db : Db} {log : List Entry} (hq : QRep db log) {s : SqlDb}
+    (h : db.toSqlWith true = .ok s) : SqlBuilt db log s := by
+  unfold Db.toSqlWith at h
+  rw [signatures_named_log hq, idxToIdent_eq hq] at h
+  simp only at h
+  split at h
+  · cases h
+  · split at h
+    · cases h
+    · simp only [if_true, Except.ok.injEq] at h
+      subst h
+      refine ⟨rows_eq_arows hq, rfl, rfl, ?_⟩
+      simp only
+      -- the (row, identifier) pairs are the annotated rows with their entries' identifiers
+      have hz : ((numberFrom 1 (db.sketches.map (fun p => (p.1, ((log[p.1]?).map Entry.name).getD "", p.2)))).map
+            (fun (q : Nat × Nat × String × List Nat) => (q.1, q.2.2.1, q.2.2.2))).zip
+          ((db.sketches.map (fun p => (p.1, ((log[p.1]?).map Entry.name).getD "", p.2))).map
+            (fun g => (get? (idxIdent log) g.1).getD "")) =
+          (arows db log).map (fun r => (r.row, r.2.1.ident)) := by
+        rw [rows_eq_arows hq]
+        unfold arows
+        rw [List.map_map, List.map_map, List.map_map]
+        conv => lhs; arg 2; rw [← map_snd_numberFrom 1 db.sketches, List.map_map]
+        rw [zip_map_map]
+        apply List.map_congr_left
+        intro q hq'
+        have hq2 : q.2 ∈ db.sketches := by
+          have := List.mem_map_of_mem (f := Prod.snd) hq'
+          rwa [map_snd_numberFrom] at this
+        obtain ⟨e, he⟩ := ((sketches_log hq).2.2.2 q.2.1).mp (mem_keys_of_mem (v := q.2.2) (by simpa using hq2))
+        simp [Function.comp, get?_idxIdent, entryAt, he]
+      rw [hz, List.foldl_map]
+      obtain ⟨_, _, _, hall⟩ := build_fold
+        (fun st (r : ARow) => sqlIndexStepI (taxOf db) st (r.row, r.2.1.ident)) id
+        (arows db log) (fun r hr => sqlIndexStepI_arow hq r (arows_mem_log hq r hr))
+        (arows_ids_nodup db log) initSt binv_init (by intro r _; simp [initSt])
+      exact ⟨_, rfl, rfl, hall⟩
 
 theorem filterMap_snd {α β γ : Type} (G : β → Option γ) (l : List (α × β)) :
     l.filterMap (fun q => G q.2) = (l.map Prod.snd).filterMap G := by
@@ -495,16 +621,19 @@ theorem sketchHolders_perm {db : Db} {log : List Entry} (hq : QRep db log)
 
 /-- `get_lineage_assignments` of the SQLite form: the lineages of the holders as the taxonomy table returns
     them, in row order -/
-theorem sql_assignments_eq {db : Db} {log : List Entry} (hq : QRep db log) (hok : SqlOk db log)
-    {s : SqlDb} (h : db.toSql = .ok s) (x : Nat) :
+theorem sql_assignments_eq {db : Db} {log : List Entry} (hq : QRep db log) {s : SqlDb}
+    (hs : SqlBuilt db log s) (x : Nat) :
     s.getLineageAssignments x = .ok ((sketchHolders db x).filterMap (fun j => sqlLineageOf (entryAt log j))) := by
-  obtain ⟨hrows, hi2l, hl2l, _, _⟩ := toSql_unfold hq h
-  obtain ⟨_, _, _, hall⟩ := build_fold hq hok (arows db log) (arows_mem_log hq) (arows_ids_nodup db log) initSt
-    ⟨by intro _ _ hh; simp [initSt] at hh, by intro _ hh; simp [initSt, keys] at hh⟩
-    (by intro r _; simp [initSt])
+  obtain ⟨hrows, hsc, _, st, hi2l, hl2l, hall⟩ := hs
+  have hb : ∀ r ∈ s.rows, ∀ h ∈ r.2.2, h ≤ mhR s.scaled := by
+    intro r hr h hh
+    rw [hrows] at hr
+    obtain ⟨r', hr', rfl⟩ := List.mem_map.mp hr
+    rw [hsc]
+    exact arows_bounded hq r' hr' h hh
   unfold SqlDb.getLineageAssignments
   simp only [ne_eq, not_true_eq_false, false_and, if_false]
-  rw [sql_idxsOf_arows s _ hrows x]
+  rw [idxsOf_eq_all s hb, sql_idxsOfAll_arows s _ hrows x]
   have := foldlM_sqlLaStep s _ hi2l hl2l ((arows db log).filter (fun r => r.2.2.contains x))
     (fun r hr => hall r (List.mem_filter.mp hr).1) []
   rw [List.nil_append] at this
@@ -519,14 +648,14 @@ theorem sql_assignments_eq {db : Db} {log : List Entry} (hq : QRep db log) (hok 
 
 /-- the SQLite form answers `get_lineage_assignments` with the lineages of the in-memory form, each as the
     taxonomy table returns it (`sqlKeep`), up to the order of the answer (row order instead of idx order) -/
-theorem sql_assignments_perm {db : Db} {log : List Entry} (hq : QRep db log) (hok : SqlOk db log)
-    {s : SqlDb} (h : db.toSql = .ok s) (x : Nat) :
+theorem sql_assignments_perm {db : Db} {log : List Entry} (hq : QRep db log)
+    (hb : ∀ e ∈ log, ∀ h ∈ e.kept, h ≤ mhR db.scaled) {s : SqlDb} (hs : SqlBuilt db log s) (x : Nat) :
     ∃ ls ls', db.getLineageAssignments x = .ok ls ∧ s.getLineageAssignments x = .ok ls' ∧
       ls'.Perm (ls.filterMap sqlKeep) := by
-  refine ⟨_, _, getLineageAssignments_eq hq x 0, sql_assignments_eq hq hok h x, ?_⟩
+  refine ⟨_, _, getLineageAssignments_eq hq x 0, sql_assignments_eq hq hs x, ?_⟩
   simp only [ne_eq, not_true_eq_false, false_and, if_false]
   rw [List.filterMap_filterMap]
-  have hp := (sketchHolders_perm hq hok.bounded x).filterMap (fun j => sqlLineageOf (entryAt log j))
+  have hp := (sketchHolders_perm hq hb x).filterMap (fun j => sqlLineageOf (entryAt log j))
   refine hp.trans ?_
   apply List.Perm.of_eq
   apply filterMap_congr'
@@ -568,13 +697,17 @@ theorem sortAsc_sorted {l : List Nat} (h : l.Pairwise (· < ·)) : sortAsc l = l
   simp
 
 /-- the SQLite form yields the same (name, sketch) pairs as the in-memory form, in the same order -/
-theorem sql_signatures_eq {db : Db} {log : List Entry} (hq : QRep db log) {s : SqlDb} (h : db.toSql = .ok s) :
+theorem sql_signatures_eq {db : Db} {log : List Entry} (hq : QRep db log) {s : SqlDb}
+    (hs : s.rows = (arows db log).map ARow.row ∧ s.scaled = db.scaled ∧ s.storedScaled = db.scaled) :
     ∃ sigs, db.signatures = .ok sigs ∧
       s.signatures.map (fun r => (r.2.1, r.2.2)) = sigs.map (fun g => (g.2.1, g.2.2)) := by
-  obtain ⟨hrows, _, _, _, hst⟩ := toSql_unfold hq h
+  obtain ⟨hrows, hsc, hst⟩ := hs
   obtain ⟨h1, h2, h3, h4⟩ := sketches_log hq
   refine ⟨_, signatures_named_log hq, ?_⟩
-  unfold SqlDb.signatures
+  have hnot : decide (s.storedScaled < s.scaled) = false := by rw [hsc, hst]; simp
+  unfold SqlDb.signatures SqlDb.signaturesWith
+  simp only [hnot, Bool.and_false, Bool.false_eq_true, if_false]
+  unfold SqlDb.signaturesStored
   rw [hrows, hst]
   unfold arows
   simp only [List.map_map]
@@ -642,10 +775,12 @@ theorem mem_hashvals_iff {db : Db} {log : List Entry} (hq : QRep db log) (x : Na
     | some v => rfl
 
 /-- the SQLite form lists the same hash values (64-bit values stored within the sketch threshold) -/
-theorem sql_hashvals_mem {db : Db} {log : List Entry} (hq : QRep db log) (hok : SqlOk db log)
-    (hu : ∀ e ∈ log, ∀ h ∈ e.kept, h < 2 ^ 64) {s : SqlDb} (h : db.toSql = .ok s) (x : Nat) :
+theorem sql_hashvals_mem {db : Db} {log : List Entry} (hq : QRep db log)
+    (hbd : ∀ e ∈ log, ∀ h ∈ e.kept, h ≤ mhR db.scaled)
+    (hu : ∀ e ∈ log, ∀ h ∈ e.kept, h < 2 ^ 64) {s : SqlDb}
+    (hs : s.rows = (arows db log).map ARow.row ∧ s.scaled = db.scaled ∧ s.storedScaled = db.scaled) (x : Nat) :
     x ∈ s.hashvals ↔ x ∈ db.hashvals := by
-  obtain ⟨hrows, _, _, _, _⟩ := toSql_unfold hq h
+  obtain ⟨hrows, hsc, _⟩ := hs
   obtain ⟨h1, _, h3, _⟩ := sketches_log hq
   rw [mem_hashvals_iff hq]
   -- the stored values
@@ -665,7 +800,7 @@ theorem sql_hashvals_mem {db : Db} {log : List Entry} (hq : QRep db log) (hok : 
     · rintro ⟨e, he, hk⟩
       obtain ⟨i, hi, hie⟩ := List.getElem_of_mem he
       have hget : log[i]? = some e := by rw [List.getElem?_eq_getElem hi, hie]
-      have hmem : y ∈ (get? db.sketches i).getD [] := (h3 i y).mpr ⟨e, hget, hk, hok.bounded e he y hk⟩
+      have hmem : y ∈ (get? db.sketches i).getD [] := (h3 i y).mpr ⟨e, hget, hk, hbd e he y hk⟩
       cases hg : get? db.sketches i with
       | none => simp [hg] at hmem
       | some hs =>
@@ -674,19 +809,21 @@ theorem sql_hashvals_mem {db : Db} {log : List Entry} (hq : QRep db log) (hok : 
           rw [map_snd_numberFrom]; exact mem_of_get? hg
         obtain ⟨q, hq', hq2⟩ := List.mem_map.mp hin
         exact ⟨_, ⟨q, hq', rfl⟩, by rw [hq2]; exact hmem⟩
-  unfold SqlDb.hashvals
-  simp only [List.mem_map]
+  unfold SqlDb.hashvals SqlDb.hashvalsWith SqlDb.hashvalsAll SqlDb.visibleWith
+  simp only [List.mem_filter, List.mem_map]
   constructor
-  · rintro ⟨y, hy, rfl⟩
+  · rintro ⟨⟨y, hy, rfl⟩, _⟩
     have := (mem_foldl_updateSet s.rows [] y).mp hy
     simp only [List.not_mem_nil, false_or] at this
     obtain ⟨e, he, hk⟩ := (hstored y).mp this
     rw [convert_roundtrip y (hu e he y hk)]
     exact ⟨e, he, hk⟩
   · rintro ⟨e, he, hk⟩
-    refine ⟨x, ?_, convert_roundtrip x (hu e he x hk)⟩
-    apply (mem_foldl_updateSet s.rows [] x).mpr
-    exact Or.inr ((hstored x).mpr ⟨e, he, hk⟩)
+    refine ⟨⟨x, ?_, convert_roundtrip x (hu e he x hk)⟩, ?_⟩
+    · apply (mem_foldl_updateSet s.rows [] x).mpr
+      exact Or.inr ((hstored x).mpr ⟨e, he, hk⟩)
+    · rw [hsc]
+      simp [hbd e he x hk]
 
 /-! ### what the taxonomy table does to a lineage along `taxlist()` -/
 
@@ -774,5 +911,27 @@ theorem dotPrefix_dot (a b : List Char) (h : '.' ∉ a) :
     dotPrefix (String.ofList (a ++ '.' :: b)) = String.ofList a := by
   unfold dotPrefix
   rw [String.toList_ofList, headUntil_append b h]
+
+/-! ### `downsample_scaled` on the SQLite form -/
+
+theorem sql_downsample_unhonoured {s s' : SqlDb} {S : Nat} (h : s.downsampleScaled S = .ok s') (x : Nat) :
+    s'.idxsOfWith false x = s.idxsOfWith false x := by
+  unfold SqlDb.downsampleScaled at h
+  by_cases h1 : S < s.scaled
+  · simp [h1] at h
+  · simp only [h1, if_false, Except.ok.injEq] at h
+    subst h
+    rfl
+
+theorem sql_downsample_honoured_idxs {s s' : SqlDb} {S : Nat} (h : s.downsampleScaled S = .ok s') (x : Nat) :
+    s'.scaled = S ∧ s'.idxsOfWith true x = if x ≤ mhR S then s.idxsOfAll x else [] := by
+  unfold SqlDb.downsampleScaled at h
+  by_cases h1 : S < s.scaled
+  · simp [h1] at h
+  · simp only [h1, if_false, Except.ok.injEq] at h
+    subst h
+    refine ⟨rfl, ?_⟩
+    unfold SqlDb.idxsOfWith SqlDb.visibleWith SqlDb.idxsOfAll
+    by_cases hx : x ≤ mhR S <;> simp [hx]
 
 end Sm.Lca
